@@ -231,12 +231,49 @@ def r19_4(repo: Repo) -> RuleResult:
     return rr
 
 
-RULES = [r19_1, r19_2, r19_3, r19_4]
+def r19_5(repo: Repo) -> RuleResult:
+    """The sequence is padded by pad_width copies of pad_value on both sides *inside* sliding_windows; the number of
+    windows is computed from the padded length.  A shortcut in the estimator that decides "too short for one window"
+    must therefore compare the padded length L + 2 * pad_width with the window width, not the raw length."""
+    rr = RuleResult("R19.5", "a short-sequence shortcut of SlidingWindowTransformer compares the padded length with the window width", floor=1)
+    c = repo.module(SW).classes.get("SlidingWindowTransformer")
+    if c is None:
+        raise AnalysisError("R19.5: SlidingWindowTransformer not found")
+    n_tests = 0
+    for entry in ("transform", "fit_transform", "fit"):
+        f = repo.resolve_method(c, entry)
+        if f is None:
+            continue
+        for n in walk_no_nested(f.node):
+            if not (isinstance(n, ast.Compare) and len(n.ops) == 1 and isinstance(n.ops[0], (ast.Lt, ast.LtE, ast.Gt, ast.GtE))):
+                continue
+            sides = [n.left, n.comparators[0]]
+            if not any(is_self_attr(x, "window_width") for s_ in sides for x in ast.walk(s_)):
+                continue
+            lens = [s_ for s_ in sides if any((isinstance(x, ast.Attribute) and x.attr == "shape") or (isinstance(x, ast.Call) and norm(x.func) == "len") for x in ast.walk(s_))]
+            if not lens:
+                continue
+            n_tests += 1
+            p = sym.poly(lens[0])
+            k, _rest = sym.coeff_of(p, "self.pad_width")
+            construct = "length test `%s`" % short(n, 50)
+            if k == 2:
+                rr.ok(f, construct, "compares the padded length (L + 2 * pad_width)", n.lineno)
+            else:
+                rr.bad(f, construct, "the raw sequence length is compared with the window width although the sequence is padded by pad_width on both "
+                       "sides before windows are cut: a sequence shorter than the width whose padded length reaches it loses all its windows", n.lineno)
+    if n_tests == 0:
+        f = repo.resolve_method(c, "transform")
+        rr.ok(f, "no short-sequence shortcut", "every sequence goes to sliding_windows, which pads before it counts windows", f.node.lineno, nontrivial=False)
+    return rr
+
+
+RULES = [r19_1, r19_2, r19_3, r19_4, r19_5]
 CLAIM = (
     "R19.1 each window_sample branch of SlidingWindowTransformer.fit builds the documented arange(start, width, step) "
     "(symbolic comparison); R19.2 the window and difference counts are ceil of a true division; R19.3 every row of the "
     "np.empty buffer is written on both branches with the slice [i*stride, i*stride + width) (or the one-step sampled form "
     "sequence[sample + i*stride]); R19.4 the difference kernel's row i is -1 at start + i*stride and +1 exactly `step` columns "
-    "later, and SequentialDifferenceTransformer asks for width stride + 1, start 0, step = stride."
+    "later, and SequentialDifferenceTransformer asks for width stride + 1, start 0, step = stride; R19.5 a short-sequence shortcut in the estimator compares the padded length L + 2 * pad_width with the window width."
 )
 NOT_DECIDED = "the kernel arithmetic, padding values and the multivariate layout."
